@@ -320,6 +320,11 @@ theorem slice0take (r : List Nat) (n : Nat) (k : Int) (hk : k = (n : Int)) (h : 
   simpa [h] using this
 end TieA.FrameGen
 
+namespace TieA.FrameGen
+/-- `x + 1` and `1 + x` are the same checked sum (a re-spelling of the source must not matter) -/
+theorem ck_add_one (t : Rt.ITy) (x : Int) : Rt.ck t (x + 1) = Rt.ck t (1 + x) := by rw [Int.add_comm]
+end TieA.FrameGen
+
 /-- the arm of TS005 `McGroupStatusAns` (`len()` = `1 + required_len(self.0[0])`) of a regenerated `parse_one` against the
 model; the hand-written `len` / `required_len` / `McGroupStatusItem::len` are `[local simp]` at the call site -/
 macro "arm_status" po:ident : tactic =>
@@ -335,7 +340,7 @@ macro "arm_status" po:ident : tactic =>
       unfold $po
       have hk : MacCmd.popcount4 (b &&& 0b1111) ≤ 4 := by unfold MacCmd.popcount4; omega
       simp only [MacCmd.mcGroupStatusRequiredLen, TieA.FrameGen.idx0', TieA.FrameGen.sliceFrom1, Option.bind_eq_bind, Option.bind_some]
-      simp [TieA.FrameGen.ints_cons, TieA.FrameGen.countOnes_and15, Rt.idx]
+      simp [TieA.FrameGen.ints_cons, TieA.FrameGen.countOnes_and15, Rt.idx, TieA.FrameGen.ck_add_one]
       by_cases hl : t.length + 1 < 1 + MacCmd.popcount4 (b &&& 15) * 5
       · simp (disch := omega) [Rt.ck_usize, hl]
         rw [if_pos (by omega)]
